@@ -316,6 +316,12 @@ func init() {
 				}
 				panic(unsupported(name + " of symbolic non-blob bytes"))
 			case strings.HasSuffix(name, ").Size") && fn.Signature.Params().Len() == 0:
+				if p, ok := args[0].(*value); ok && p != nil {
+					rt := fn.Signature.Recv().Type().(*types.Pointer).Elem()
+					if z := protoIsZero(fr, rt, deepCopy(copyMode{"proto"}, rt, *p, 0), 0); z.IsTrue() || (!z.IsFalse() && fr.decide(z)) {
+						return 0, true
+					}
+				}
 				return 1, true
 			}
 			return nil, false
